@@ -26,6 +26,10 @@ type C08Case struct {
 	Rune   rune   `json:"rune"`
 	Regexp string `json:"regexp"`
 	Group  int    `json:"group"`
+	// Shared: one reader serves every parser at every offset (offsets outer, parsers inner), and a
+	// dozen further Regexp terminals with distinct expressions take part: a literal's result must not
+	// depend on what the reader was used for before
+	Shared bool `json:"shared,omitempty"`
 }
 
 func (c *C08Case) Describe() string {
@@ -95,6 +99,7 @@ func genC08(t *rapid.T) interface{} {
 	c.Rune = rapid.SampledFrom([]rune{'a', 'é', '\n', '😀', '"', '\'', 0x7f, 0x80, 0xff, 0x7ff, 0x800, 0xffff, 0x10ffff, '1', '.'}).Draw(t, "rune")
 	re := c08Regexps[rapid.IntRange(0, len(c08Regexps)-1).Draw(t, "regexp")]
 	c.Regexp, c.Group = re.Expr, re.Group
+	c.Shared = rapid.IntRange(0, 2).Draw(t, "sharedReader") == 0
 	return c
 }
 
@@ -157,6 +162,24 @@ func c08Parsers(c *C08Case) []litEntry {
 	}
 }
 
+func reEntry(name, expr string, group int) litEntry {
+	re := regexp.MustCompile(expr)
+	return litEntry{name, terminal.Regexp("r", "RE", "regexp match", expr, group), func(d []byte, o int) Lit {
+		if o >= len(d) {
+			return Lit{}
+		}
+		m := re.FindSubmatchIndex(d[o:])
+		if m == nil || m[0] != 0 || m[1] == 0 {
+			return Lit{}
+		}
+		v := ""
+		if m[2*group] >= 0 {
+			v = string(d[o+m[2*group] : o+m[2*group+1]])
+		}
+		return Lit{Match: true, End: o + m[1], Value: v}
+	}}
+}
+
 func checkC08(ci interface{}, st *Stats) error {
 	c := ci.(*C08Case)
 	if c.True == "" || c.False == "" || c.Nil == "" || c.Word == "" || c.Op == "" || !utf8.ValidRune(c.Rune) || c.Rune == utf8.RuneError {
@@ -169,14 +192,43 @@ func checkC08(ci interface{}, st *Stats) error {
 }
 
 func checkLiterals(c *C08Case, st *Stats) (err error) {
-	f := text.NewFile("f", c.Data)
+	f := newFileOwned("f", c.Data)
 	d := normCRLF(c.Data)
 	if len(d) != f.Len() {
 		return fmt.Errorf("file length %d differs from the CRLF-normalised content length %d", f.Len(), len(d))
 	}
 	nontrivial := false
-	for _, e := range c08Parsers(c) {
+	entries := c08Parsers(c)
+	type job struct {
+		e   litEntry
+		off int
+	}
+	var jobs []job
+	var shared *text.Reader
+	if c.Shared {
+		for k := 1; k <= 7; k++ {
+			entries = append(entries, reEntry(fmt.Sprintf("Regexp([a-z0-9]{%d})", k), fmt.Sprintf("[a-z0-9]{%d}", k), 0),
+				reEntry(fmt.Sprintf("Regexp(\\d{%d}\\.?)", k), fmt.Sprintf("\\d{%d}\\.?", k), 0))
+		}
+		shared = text.NewReader(f)
 		for off := 0; off <= len(d); off++ {
+			for _, e := range entries {
+				jobs = append(jobs, job{e, off})
+			}
+		}
+		if st != nil {
+			st.Class("one reader for all parsers and offsets, > 16 distinct regular expressions")
+		}
+	} else {
+		for _, e := range entries {
+			for off := 0; off <= len(d); off++ {
+				jobs = append(jobs, job{e, off})
+			}
+		}
+	}
+	for _, j := range jobs {
+		e, off := j.e, j.off
+		{
 			want := e.model(d, off)
 			var node parsley.Node
 			var perr parsley.Error
@@ -186,7 +238,11 @@ func checkLiterals(c *C08Case, st *Stats) (err error) {
 						pe = fmt.Errorf("%s panicked at offset %d: %v", e.name, off, r)
 					}
 				}()
-				ctx := parsley.NewContext(parsley.NewFileSet(f), text.NewReader(f))
+				rd := shared
+				if rd == nil {
+					rd = text.NewReader(f)
+				}
+				ctx := parsley.NewContext(parsley.NewFileSet(f), rd)
 				node, _, perr = e.p.Parse(ctx, data.EmptyIntMap, f.Pos(off))
 				return nil
 			}(); pe != nil {
